@@ -163,6 +163,14 @@ func waitDiscipline(c *an.Check, construct string, fn *ssa.Function, isGetter fu
 								if stt.Parent() == g && loop[stt.Block()] {
 									reset = true
 								}
+								// assigned by a critical-section literal created inside the loop
+								if stt.Parent() != g {
+									for _, mc := range p.MakeClosureSites(stt.Parent()) {
+										if mc.Parent() == g && loop[mc.Block()] {
+											reset = true
+										}
+									}
+								}
 							}
 							if !reset {
 								ok, why = false, fmt.Sprintf("the loop at %s waits on a variable that is not reset in each iteration (a stale channel from an earlier iteration may be used)", p.Pos(sel.Pos()))
